@@ -29,13 +29,25 @@ MCInit == (\E c \in Cfgs : InitWith(c)) /\ hist = <<>>
 
 Push(m) == ClientSend(m) /\ hist' = Append(hist, [k |-> "send", m |-> m])
 
+\* a message held back by the client and written together with the next one (one segment)
+PushGlued(m) == ClientSend(m) /\ hist' = Append(hist, [k |-> "send", m |-> m, glue |-> TRUE])
+Held == hist # <<>> /\ "glue" \in DOMAIN hist[Len(hist)]
+
+\* what follows a Terminate in the same segment: never served
+MCSendAfterGlue ==
+    /\ Held
+    /\ \/ Push([t |-> "X"])
+       \/ Push([t |-> "Q", q |-> Q(10 * Len(hist), 1)])
+       \/ Push([t |-> "S"])
+
 MCSend ==
-    /\ Quiet /\ phase # "closed"
+    /\ ~Held /\ Quiet /\ phase # "closed"
     /\ \/ phase = "startup" /\ Push(StartupMsg)
        \/ phase = "auth" /\ Push([t |-> "p", pw |-> "good", pwd |-> "good"])
        \/ /\ phase = "ready" /\ NCmds < MaxCmds
           /\ \/ \E n \in {1, 2} : Push([t |-> "Q", q |-> Q(10 * Len(hist), n)])
              \/ Push([t |-> "X"])
+             \/ PushGlued([t |-> "X"])
              \/ \* a failing Parse: the session is discarding when the next command arrives
                 Push([t |-> "P", name |-> "f", q |-> [id |-> 99, parse |-> "err", perr |-> [base |-> "boom", layers |-> <<>>], stmts |-> <<>>], noids |-> 0])
              \/ /\ "" \notin DOMAIN stmts /\ Push([t |-> "P", name |-> "", q |-> Q(10 * Len(hist), 1), noids |-> 0])
@@ -45,7 +57,7 @@ MCSend ==
              \/ /\ "" \in DOMAIN portals /\ Push([t |-> "S"])
 
 MCServer == ServerStep /\ UNCHANGED hist
-MCNext == MCSend \/ MCServer
+MCNext == MCSend \/ MCSendAfterGlue \/ MCServer
 MCSpec == MCInit /\ [][MCNext]_mcvars
 View == vars
 Cover == (hist' # hist) => ExportRecord([cfg |-> cfg, steps |-> hist'])
@@ -72,5 +84,9 @@ ContextReachesCallbacks ==
 TerminateOnce ==
     [][(Reading("ready") /\ ~skip /\ Head1.t = "X") =>
           (phase' = "closed" /\ Cardinality({i \in DOMAIN emit' : emit'[i].k = "cb"}) = (IF cfg.term = "none" THEN 0 ELSE 1))]_mcvars
+
+\* nothing is served after Terminate: no callback and no reply once the connection is closed
+NothingAfterTerminate ==
+    [][phase = "closed" => (phase' = "closed" /\ (emit' = emit \/ emit' = <<>>))]_mcvars
 
 =============================================================================
